@@ -88,7 +88,18 @@ def extract_ops(ctx):
     m["write_guard"] = guard_only(use(one("write", "send", "out")))
     use(one("write", "recv", "close"))
     wl_close = [o for o in ops if o["func"] == "writeLoop" and o["kind"] == "recv" and o["chan"] == "close"]
-    wl_out = use(one("writeLoop", "recv", "out"))
+    wl_outs = [o for o in ops if o["func"] == "writeLoop" and o["kind"] == "recv" and o["chan"] == "out"]
+    main = [o for o in wl_outs if o["select"] and (o.get("select_others") or []) == ["recv:close"] and not o.get("select_default")]
+    # the drain of the close branch: for { select { case p := <-client.out: ... default: return } }
+    drain = [o for o in wl_outs if o["select"] and not (o.get("select_others") or []) and o.get("select_default")]
+    if len(main) != 1 or len(drain) > 1 or len(main) + len(drain) != len(wl_outs):
+        bad("writeLoop receives from out in %d places (%d in the main select, %d non-blocking drains)" % (len(wl_outs), len(main), len(drain)))
+    wl_out = use(main[0])
+    for o in drain:
+        if o["line"] < wl_close[0]["line"] if wl_close else True:
+            bad("the non-blocking receive from out in writeLoop is not inside the close branch")
+        use(o)
+    m["writeloop_drains_on_close"] = len(drain) == 1
     for o in wl_close:
         use(o)
     m["writeloop_select_close"] = len(wl_close) == 1 and wl_close[0]["select"] and wl_out["select"]
@@ -290,7 +301,9 @@ def ce_to_scenario(ce, pk, sid):
             if b["peerClosed"][k] and not a["peerClosed"][k]:
                 steps.append({"op": "settle"})
                 steps.append({"op": "close", "k": k + 1})
-        if b["stopCalled"] and not a["stopCalled"]:
+        if a["pc"]["1"] == "st1" and b["pc"]["1"] != "st1":
+            # Stop = st0 (listeners closed) ... st1 (sockets closed under srv.mu): the real call does both at once; what the peers
+            # sent in between was sent before the sockets were closed, so the script calls Stop where the model closes them
             steps.append({"op": "settle"})
             steps.append({"op": "stop"})
         if b["n"] > a["n"]:
@@ -305,10 +318,35 @@ def ce_to_scenario(ce, pk, sid):
 
 
 # ------------------------------------------------------------------------------------------------ the real broker
+_driver = {}
+_driver_lock = threading.Lock()
+
+
+def build_driver(ctx, race=False):
+    """harness/cmd/conn for this run.  `go build` of the broker takes 10-130 s on a loaded machine even when nothing changed, so a
+    binary that is newer than every Go source of /repo and of the harness is reused as it is."""
+    with _driver_lock:
+        if race in _driver:
+            return _driver[race]
+        exe = os.path.join(vlib.BIN, "race" if race else "plain", "conn")
+        newest = 0.0
+        for root in (vlib.REPO, os.path.join(vlib.VERIF, "harness")):
+            for dp, dn, fn in os.walk(root):
+                dn[:] = [d for d in dn if d not in (".git", "node_modules", "testdata")]
+                for f in fn:
+                    if (f.endswith(".go") and not f.endswith("_test.go")) or f == "go.mod" or (f == "go.sum" and root == vlib.REPO):
+                        newest = max(newest, os.path.getmtime(os.path.join(dp, f)))
+        if os.path.exists(exe) and os.path.getmtime(exe) > newest:
+            vlib.log("[build] %s is newer than every source: reused" % exe)
+        else:
+            ctx.go_build(["./cmd/conn"], race=race)
+        _driver[race] = exe
+        return exe
+
+
 def run_driver(ctx, scenarios, race=False, par=6, timeout=120):
     """execute each scenario with its own harness/cmd/conn process; returns {id: result}"""
-    bindir = ctx.go_build(["./cmd/conn"], race=race)
-    exe = os.path.join(bindir, "conn")
+    exe = build_driver(ctx, race=race)
     d = ctx.tmp("conn")
     out = {}
 
